@@ -322,6 +322,13 @@ impl MWorld {
         let dead: Vec<Id> = self.nodes[i].cc.dead_nodes().map(real::from_real_id).collect();
         self.invariants(i)?;
         let me = self.ids_of(i);
+        // bookkeeping of removals (needed by every property's oracle)
+        for (m, (hb, _, _)) in &before {
+            if !after.contains_key(m) {
+                self.tally.inc("removals");
+                self.removed_hb[i].insert(m.clone(), *hb);
+            }
+        }
         if self.has("C12") {
             for m in after.keys() {
                 if *m == me {
@@ -333,19 +340,17 @@ impl MWorld {
                 }
             }
             // removal
-            for (m, (hb, _, _)) in &before {
+            for (m, _) in &before {
                 if after.contains_key(m) {
                     continue;
                 }
                 let since = self.dead_since[i].get(m).copied();
-                self.tally.inc("removals");
                 match since {
                     Some(t) if self.now - t >= GRACE_MS => {}
                     other => {
                         return Err(("C12", format!("node {} removed {} although it was dead only since {:?} (now {})", NAMES[i], m.node_id, other, self.now), "removed-too-early".into()));
                     }
                 }
-                self.removed_hb[i].insert(m.clone(), *hb);
             }
             // members re-created since the last evaluation go through the normal dead-to-live path:
             // without two further fresh heartbeats they are dead now
@@ -705,6 +710,9 @@ pub fn run(property: &'static str, tier: Tier, started: Instant) -> Vec<Part> {
     if tier == Tier::Quick && property == "C13" {
         plan.truncate(4);
         plan[3] = (Root::CrashRemovedAtA, true, depth2);
+    }
+    if tier == Tier::Quick && property == "C01" {
+        plan = vec![(Root::Crash, false, 4), (Root::CrashQuarantined, false, 4), (Root::PartitionRemovedAtA, false, 3)];
     }
     let n = plan.len() as u64;
     for (i, (root, pred, d)) in plan.into_iter().enumerate() {
